@@ -73,6 +73,194 @@ def relabel (names : List String) (t : T) : Gotree.C05.Res T :=
   let t' := (setNames names t).1
   if hasDupS t'.tipNames then .err "Cannot create a tip index when several tips have the same name" else .ok t'
 
+/- ### AddQuotes / RemoveQuotes (tree/tree.go:1656, :1698)
+
+    for _, n := range t.Nodes() {
+        if (tips && n.Tip()) || (internals && !n.Tip()) {
+            name := n.Name(); first := name[0]; last := name[len(name)-1]      // index out of range on ""
+            firstpos, lastpos := 0, len(name)
+            if first == '\'' || first == '"' { firstpos = 1 }
+            if last  == '\'' || last  == '"' { lastpos-- }
+            newname := name[firstpos:lastpos]                                  // slice bounds out of range on "'"
+            …SetName(newname) / SetName("'" + newname + "'")
+    } }
+    t.UpdateTipIndex()
+-/
+
+def isQuoteChar (c : Char) : Bool := c == '\'' || c == '"'
+
+/-- the new name, or `none` where the code panics -/
+def quoteName (add : Bool) (name : String) : Option String :=
+  let cs := name.toList
+  match cs.head?, cs.getLast? with
+  | some first, some last =>
+    let fp := if isQuoteChar first then 1 else 0
+    let lp := cs.length - (if isQuoteChar last then 1 else 0)
+    if fp > lp then none
+    else
+      let core := String.ofList ((cs.take lp).drop fp)
+      some (if add then "'" ++ core ++ "'" else core)
+  | _, _ => none
+
+mutual
+/-- rename the selected nodes (`sel isTip`) by `f`; `hasParent = false` for the root -/
+def mapSel (sel : Bool → Bool) (f : String → String) (hasParent : Bool) : T → T
+  | .node d p k =>
+    .node (if sel (k.length + (if hasParent then 1 else 0) == 1) then { d with name := f d.name } else d) p (mapSelL sel f k)
+def mapSelL (sel : Bool → Bool) (f : String → String) : Kids → Kids
+  | [] => []
+  | (e, t) :: r => (e, mapSel sel f true t) :: mapSelL sel f r
+end
+
+mutual
+/-- names of the selected nodes, in `Nodes()` order -/
+def selNames (sel : Bool → Bool) (hasParent : Bool) : T → List String
+  | .node d _ k =>
+    (if sel (k.length + (if hasParent then 1 else 0) == 1) then [d.name] else []) ++ selNamesL sel k
+def selNamesL (sel : Bool → Bool) : Kids → List String
+  | [] => []
+  | (_, t) :: r => selNames sel true t ++ selNamesL sel r
+end
+
+def quotes (add internals tips : Bool) (t : T) : Gotree.C05.Res T :=
+  let sel := fun (isTip : Bool) => (tips && isTip) || (internals && !isTip)
+  if (selNames sel false t).any (fun n => (quoteName add n).isNone) then .panic "index or slice bounds out of range"
+  else
+    let t' := mapSel sel (fun n => (quoteName add n).getD n) false t
+    if hasDupS t'.tipNames then .err "Cannot create a tip index when several tips have the same name" else .ok t'
+
+/- ### ShuffleTips (tree/tree.go:1027)
+
+    tips := t.Tips(); names := t.AllTipNames(); permutation := rand.Perm(len(names))
+    for i, p := range permutation { tips[i].SetName(names[p]) }
+    t.ReinitIndexes()        // its error is dropped
+
+  `Tips()` and `AllTipNames()` walk in the same order (since 9642e30 also below a root that is a tip).
+  The result is expressed as a relabelling of all nodes: non-tips keep their names. -/
+mutual
+/-- (name, is a tip) of every node in `Nodes()` order -/
+def nodeFlags (hasParent : Bool) : T → List (String × Bool)
+  | .node d _ k => (d.name, k.length + (if hasParent then 1 else 0) == 1) :: nodeFlagsL k
+def nodeFlagsL : Kids → List (String × Bool)
+  | [] => []
+  | (_, t) :: r => nodeFlags true t ++ nodeFlagsL r
+end
+
+/-- tip number `i` (in walk order) receives `names[perm[i]]` -/
+def shuffledNames (perm : List Nat) (names : List String) : List (String × Bool) → Nat → List String
+  | [], _ => []
+  | (n, tip) :: r, i =>
+    if tip then (names.getD (perm.getD i i) n) :: shuffledNames perm names r (i + 1)
+    else n :: shuffledNames perm names r i
+
+/-- `ShuffleTips()` with the draws of `rand.Perm` (`Intn(1) … Intn(n)`, n = number of tips).  The
+    code drops the error of the final `ReinitIndexes`; the model reports duplicate tip names as an
+    error, which cannot happen from unique names (the driver's tie would show it otherwise). -/
+def shuffle (draws : List Nat) (t : T) : Gotree.C05.Res T :=
+  let fl := nodeFlags false t
+  let names := (fl.filter (·.2)).map (·.1)
+  if draws.length != names.length then .err "draws: not the draw script of rand.Perm" else
+  match Gotree.C07.goPerm draws with
+  | none => .err "draws: out of range"
+  | some perm => relabel (shuffledNames perm names fl 0) t
+
+/- ### RenameAuto (tree/tree.go:1584) with `*curid = 1` and an empty name map, as the harness calls it
+
+    for i, n := range t.Nodes() { if selected {
+        prefix := 'T'; if !n.Tip() { prefix = 'N'; if n.Name() == "" { n.SetName(strconv.Itoa(i)) } }
+        newname, ok := namemap[n.Name()]
+        if !ok { newname = Sprintf("%c%0*d", prefix, length-1, *curid); if len(newname) != length { return err }
+                 namemap[n.Name()] = newname; *curid++ }
+        n.SetName(newname) } }
+    t.UpdateTipIndex()
+-/
+
+def zeroPad (w : Nat) (n : Nat) : String :=
+  let ds := toString n
+  String.ofList (List.replicate (w - ds.length) '0') ++ ds
+
+/-- the new names of all nodes in `Nodes()` order; `none` = "Id length … does not allow …" -/
+def autoNames (internals tips : Bool) (length : Nat) :
+    List (String × Bool) → Nat → Nat → List (String × String) → Option (List String)
+  | [], _, _, _ => some []
+  | (name, isTip) :: r, i, curid, m =>
+    if (tips && isTip) || (internals && !isTip) then
+      let key := if !isTip && name == "" then toString i else name
+      match m.find? (fun p => p.1 == key) with
+      | some p => (autoNames internals tips length r (i + 1) curid m).map (p.2 :: ·)
+      | none =>
+        let newname := (if isTip then "T" else "N") ++ zeroPad (length - 1) curid
+        if newname.length != length then none
+        else (autoNames internals tips length r (i + 1) (curid + 1) ((key, newname) :: m)).map (newname :: ·)
+    else (autoNames internals tips length r (i + 1) curid m).map (name :: ·)
+
+def renameAuto (internals tips : Bool) (length : Nat) (t : T) : Gotree.C05.Res T :=
+  match autoNames internals tips length (nodeFlags false t) 0 1 [] with
+  | none => .err "Id length does not allow to generate as much ids"
+  | some names => relabel names t
+
+/- ### RenameRegexp (tree/tree.go:1627): the selected nodes get `r.ReplaceAllString(name, repl)`, then
+   `UpdateTipIndex()`.  Go's regexp engine is not modelled; the harness draws from a fixed table of
+   (pattern, replacement) pairs whose effect on a name is written out here. -/
+
+def stripTrailingDigits (s : String) : String :=
+  String.ofList (s.toList.reverse.dropWhile Char.isDigit).reverse
+
+/-- `none` = the pattern does not compile (the call reports an error); `some none` = not in the table -/
+def regexTable (pat repl : String) : Option (Option (String → String)) :=
+  if pat == "t" && repl == "T" then some (some fun s => String.ofList (s.toList.map fun c => if c == 't' then 'T' else c))
+  else if pat == "^(.)" && repl == "x$1" then some (some fun s => if s == "" then s else "x" ++ s)
+  else if pat == "[0-9]+$" && repl == "" then some (some stripTrailingDigits)
+  else if pat == "x" && repl == "yy" then some (some fun s => String.ofList (s.toList.flatMap fun c => if c == 'x' then ['y', 'y'] else [c]))
+  else if pat == "(" then none
+  else some none
+
+def renameSel (internals tips : Bool) (f : String → String) (t : T) : Gotree.C05.Res T :=
+  let t' := mapSel (fun isTip => (tips && isTip) || (internals && !isTip)) f false t
+  if hasDupS t'.tipNames then .err "Cannot create a tip index when several tips have the same name" else .ok t'
+
+/- ### the data edits (tree/tree.go: ClearLengths, ClearSupports, ClearComments, ScaleLengths, RoundLengths):
+   a function applied to the data of every node / branch; `e.right.Tip()` = the lower node has no child -/
+mutual
+def mapData (fn : NodeD → NodeD) (fe : Bool → EdgeD → EdgeD) : T → T
+  | .node d p k => .node (fn d) p (mapDataL fn fe k)
+def mapDataL (fn : NodeD → NodeD) (fe : Bool → EdgeD → EdgeD) : Kids → Kids
+  | [] => []
+  | (e, t) :: r => (fe t.kids.isEmpty e, mapData fn fe t) :: mapDataL fn fe r
+end
+
+def selEdge (internal external tip : Bool) : Bool := (tip && external) || (!tip && internal)
+
+def clearLengths (internal external : Bool) (t : T) : T :=
+  mapData id (fun tip e => if selEdge internal external tip then { e with len := NIL } else e) t
+
+def clearSupports (t : T) : T := mapData id (fun _ e => { e with sup := NIL, pval := NIL }) t
+
+def clearComments (t : T) : T := mapData (fun d => { d with comments := [] }) (fun _ e => { e with comments := [] }) t
+
+def scaleLengths (x : Rat) (internal external : Bool) (t : T) : T :=
+  mapData id (fun tip e => if e.len != NIL && selEdge internal external tip then { e with len := e.len * x } else e) t
+
+/-- `math.Round`: half away from zero -/
+def roundRat (q : Rat) : Rat := if q ≥ 0 then ((q + 1/2).floor : Int) else -(((-q + 1/2).floor : Int) : Rat)
+
+/-- `RoundLengths(0, …)` -/
+def roundLengths0 (internal external : Bool) (t : T) : T :=
+  mapData id (fun tip e => if e.len != NIL && selEdge internal external tip then { e with len := roundRat e.len } else e) t
+
+/- ### ResolveNamedInternalNodes (tree/tree.go:1235): post-order, every named node that is not a tip
+   gets one more child, a tip carrying its name on a fresh branch of length 0 (appended last) -/
+mutual
+def resolveNamed (hasParent : Bool) : T → T
+  | .node d p k =>
+    let k' := resolveNamedL k
+    let isTip := k.length + (if hasParent then 1 else 0) == 1
+    .node d p (if !isTip && d.name != "" then k' ++ [(⟨0, NIL, NIL, [], -1⟩, T.leaf d.name)] else k')
+def resolveNamedL : Kids → Kids
+  | [] => []
+  | (e, t) :: r => (e, resolveNamed true t) :: resolveNamedL r
+end
+
 /-- `ReinitIndexes()` does not touch the tree; it fails without tips or with duplicate tip names -/
 def reinit (t : T) : Gotree.C05.Res T :=
   if hasDupS t.tipNames then .err "Cannot create a tip index when several tips have the same name"
@@ -104,7 +292,10 @@ inductive EditOp where
   | graftEdge (name : String) (k : Nat)  -- Tree.GraftTipOnEdge(new node `name`, the k-th branch in Edges() order)
   | rename (m : List (String × String))  -- Tree.Rename(map), keys pairwise distinct
   | reinit                               -- Tree.ReinitIndexes() (not an edit: offered between edits)
-  | relabel (names : List String)        -- any renaming: RenameAuto, RenameRegexp, AddQuotes, RemoveQuotes, ShuffleTips
+  | relabel (names : List String)        -- any renaming: RenameAuto, RenameRegexp, ShuffleTips
+  | quotes (add internals tips : Bool)   -- Tree.AddQuotes / Tree.RemoveQuotes (panics on an empty name: not a success)
+  | shuffle (draws : List Nat)           -- Tree.ShuffleTips(), the draws of rand.Perm given
+  | renameAuto (internals tips : Bool) (length : Nat)   -- Tree.RenameAuto(internals, tips, length, &1, {})
   deriving Repr
 
 def applyOp : EditOp → T → Res T
@@ -172,6 +363,9 @@ def applyOp : EditOp → T → Res T
   | .rename m, t => renameMap m t
   | .reinit, t => reinit t
   | .relabel names, t => relabel names t
+  | .quotes add internals tips, t => quotes add internals tips t
+  | .shuffle draws, t => shuffle draws t
+  | .renameAuto internals tips length, t => renameAuto internals tips length t
 
 /-- a history: stops at the first operation that does not report success -/
 def runOps : T → List EditOp → Res T
